@@ -77,8 +77,8 @@ func runC16(em *vEmitter, r *vRng) {
 					viol = "the command crashed: " + truncS(so, 300)
 				}
 				em.emit(vCase{Prop: "C16", Kind: "gate", Class: fmt.Sprintf("gate/%s/docheck=%v", d.name, docheck), Nontrivial: true,
-					Coq:   fmt.Sprintf("GateCase %s %s %s %s %s", ms.cfgTerm(), before, cB(docheck), cB(!refused), cB(before != after)),
-					Human: map[string]interface{}{"dir": d.name, "cmd": cmd, "do_check": docheck, "refused": refused, "changed": before != after, "output": truncS(so, 200)},
+					Coq:       fmt.Sprintf("GateCase %s %s %s %s %s", ms.cfgTerm(), before, cB(docheck), cB(!refused), cB(before != after)),
+					Human:     map[string]interface{}{"dir": d.name, "cmd": cmd, "do_check": docheck, "refused": refused, "changed": before != after, "output": truncS(so, 200)},
 					Violation: viol})
 				ms.cleanup()
 			}
